@@ -53,7 +53,13 @@ class For(Expr):
         condStart, condEnd = self.cond.__teal__(options)
         doStart, doEnd = self.doBlock.__teal__(options)
 
+        continuesBeforeStep = len(options.continueBlocksStack[-1])
         stepStart, stepEnd = self.step.__teal__(options)
+        if len(options.continueBlocksStack[-1]) != continuesBeforeStep:
+            # Continue jumps to the step: a step that continues this loop would jump to itself
+            raise TealCompileError(
+                "Continue cannot be used in the step of its own For loop", self
+            )
         stepEnd.setNextBlock(condStart)
         stepEnd._sframes_container = self
         doEnd.setNextBlock(stepStart)
